@@ -11,15 +11,15 @@ NOTE = ("trusted: Coq 8.16.1 kernel (no axioms: every theorem closed under the g
 
 CLAIMED = {
     'C01': dict(
-        text="C01_roundtrip: for every value of every shape over the 29 serde kinds and every following byte string, de_slice t (enc v ++ rest) = Ok (v, rest), by induction over the value tree on the bit-level model of the varint/zig-zag code whose loop constants and expressions are regenerated from the source on every run; the harness runs 5 encode x 3 decode entry points of the real crate on generated shapes/values (direct round-trip oracle) and the extracted model is compared on the same inputs.",
+        text="C01_roundtrip: for every value of every shape over the 29 serde kinds and every following byte string, de_slice t (enc v ++ rest) = Ok (v, rest), by induction over the value tree on the bit-level model of the varint/zig-zag code whose loop constants and expressions are regenerated from the source on every run; the harness runs 5 encode x 3 decode entry points of the real crate on generated shapes/values (direct round-trip oracle) and the extracted model is compared on the same inputs. C01_encoder_is_the_method_bodies / C01_decoder_is_the_method_bodies: the encoder and decoder of these theorems are what the bodies of the serializer's and deserializer's methods, read from ser/serializer.rs and de/deserializer.rs on every run and interpreted step by step, compute.",
         note=NOTE + "serde's data-model plumbing (visitors, derive), from_utf8/encode_utf8, to_le_bytes; heapless/alloc/io storage entry points are covered by the harness oracle (their models arrive with C05/C11)",
         design="4 (C01)"),
     'C02': dict(
-        text="C02_encode_is_spec: enc v = spec_enc v for every typed value, where spec_enc is written from wire-format.md with div/mod only; canonical varints (valid and minimal), zig-zag equals the arithmetic definition, usize = u64, unknown lengths refused with nothing emitted, collect_str = str; GenLoops/GenArith tie the theorems to the current source text. Direct oracle: independent Rust encoder from the spec.",
+        text="C02_encode_is_spec: enc v = spec_enc v for every typed value, where spec_enc is written from wire-format.md with div/mod only; canonical varints (valid and minimal), zig-zag equals the arithmetic definition, usize = u64, unknown lengths refused with nothing emitted, collect_str = str; GenLoops/GenArith tie the theorems to the current source text. Direct oracle: independent Rust encoder from the spec. C02_model_is_the_method_bodies: the serializer model is, clause by clause, the interpretation of the method bodies translated from ser/serializer.rs (30 serialize_* methods, 5 varint helpers, 8 element methods; collect_str by template).",
         note=NOTE + "serde's Serialize impls for the values the harness constructs; collect_str's Display is a list of pieces",
         design="4 (C02)"),
     'C03': dict(
-        text="C03_de_is_spec: on every byte string and every shape the implementation-shaped bit-level decoder equals the arithmetic reference decoder spec_de written from wire-format.md (acceptance, value, remainder, error kind); C03_varint_exact: the reference varint reader accepts exactly the permitted encodings incl. non-minimal ones (iff with the declarative valid_varint); C03_varint_errors classifies truncation vs bad varint; C03_accepts_encodings: every encoding is accepted with the remainder untouched. C03_remaining_bytes_irrelevant: a successful decode consumes a prefix that alone determines the result; C03_strict_prefix_unexpected_end: every strict prefix of a valid message of any shape fails with unexpected-end (every reader is a local parser; locality is closed under sequencing and iteration). Direct oracle: independent Rust decoder from the spec, exhaustive short strings.",
+        text="C03_de_is_spec: on every byte string and every shape the implementation-shaped bit-level decoder equals the arithmetic reference decoder spec_de written from wire-format.md (acceptance, value, remainder, error kind); C03_varint_exact: the reference varint reader accepts exactly the permitted encodings incl. non-minimal ones (iff with the declarative valid_varint); C03_varint_errors classifies truncation vs bad varint; C03_accepts_encodings: every encoding is accepted with the remainder untouched. C03_remaining_bytes_irrelevant: a successful decode consumes a prefix that alone determines the result; C03_strict_prefix_unexpected_end: every strict prefix of a valid message of any shape fails with unexpected-end (every reader is a local parser; locality is closed under sequencing and iteration). Direct oracle: independent Rust decoder from the spec, exhaustive short strings. C03_model_is_the_method_bodies: the decoder model is, clause by clause and for every lawful flavour, the interpretation of the method bodies translated from de/deserializer.rs (31 deserialize_* methods, VariantAccess, variant_seed; SeqAccess/MapAccess by template).",
         note=NOTE + "serde visitors (DynVal shape-directed seeds in the harness), from_utf8",
         design="4 (C03)"),
     'C04': dict(
